@@ -242,8 +242,14 @@ class SymStream:
         self.fault_seen.append((self.ncalls, kv))
         return kv
 
+    def _cap(self):
+        # a finite stream answers finitely many calls before a correct reader stops: far beyond that is a non-terminating loop
+        if self.ncalls > 6 * len(self.d) + 64:
+            raise sym.Budget(f"stream double called {self.ncalls} times for {len(self.d)} bytes")
+
     def read(self, n=-1):
         self.ncalls += 1
+        self._cap()
         rem = len(self.d) - self.pos
         if isinstance(n, SymInt):
             # bound the concretisation by what is left in the stream
@@ -267,6 +273,7 @@ class SymStream:
 
     def readline(self):
         self.ncalls += 1
+        self._cap()
         out = []
         start = self.pos
         while self.pos < len(self.d):
